@@ -80,7 +80,7 @@ class TimeoutExecutor(CanCustomizeBind, Executor):
         metrics.EXEC_INPROGRESS.labels(type="timeout", executor=self._name).inc()
 
     def submit(self, *args, **kwargs):  # pylint: disable=arguments-differ
-        return self.submit_timeout(self._timeout, *args, **kwargs)
+        return self._submit_timeout(self._timeout, args, kwargs)
 
     def submit_timeout(self, timeout, fn, *args, **kwargs):
         """Like :code:`submit(fn, *args, **kwargs)`, but uses the specified
@@ -88,8 +88,13 @@ class TimeoutExecutor(CanCustomizeBind, Executor):
 
         .. versionadded:: 1.19.0
         """
+        return self._submit_timeout(timeout, (fn,) + args, kwargs)
+
+    def _submit_timeout(self, timeout, args, kwargs):
+        # args and kwargs are not unpacked into a signature with named
+        # parameters, so the callable may take keywords such as "timeout" or "fn"
         with self._shutdown.ensure_alive():
-            delegate_future = self._delegate.submit(fn, *args, **kwargs)
+            delegate_future = self._delegate.submit(*args, **kwargs)
             future = MapFuture(delegate_future)
             track_future(future, type="timeout", executor=self._name)
 
